@@ -344,7 +344,9 @@ func cloudCase(t *rapid.T, family [][]*gostatsd.Metric, perm []int, wantPlain mo
 
 func tagCase(t *rapid.T, base []*gostatsd.MetricMap, perm []int) {
 	sink := fakes.NewSink()
-	th := statsd.NewTagHandler(sink, nil, []statsd.Filter{{DropTags: gostatsd.StringMatchList{gostatsd.NewStringMatch("env:*")}}})
+	// with one static tag, a series that loses exactly one tag to the filter leaves with as many tags as it came with
+	static := gostatsd.Tags(rapid.SampledFrom([][]string{nil, {"static:1"}, {"static:1", "static:2"}}).Draw(t, "static-tags"))
+	th := statsd.NewTagHandler(sink, static, []statsd.Filter{{DropTags: gostatsd.StringMatchList{gostatsd.NewStringMatch("env:*")}}})
 	// first merge everything (by the reference-checked MergeMaps) so that one map holds colliding series
 	var ms []*gostatsd.MetricMap
 	for _, p := range perm {
@@ -359,7 +361,7 @@ func tagCase(t *rapid.T, base []*gostatsd.MetricMap, perm []int) {
 				out = append(out, x)
 			}
 		}
-		return out
+		return append(out, static...)
 	}
 	merged.Counters.Each(func(n, _ string, c gostatsd.Counter) {
 		want.AddCounter(model.MakeKey(gostatsd.COUNTER, n, strip(c.Tags), string(c.Source)), c.Value, c.Timestamp)
